@@ -586,6 +586,10 @@ def check(run):
                 "user name" not in changed:
             sc.fail("resave", f"re-save changed {sorted(changed)} / datasets",
                     theorem="C16_resave_user_only")
+        # the comment cleared again (empty text is a value like any other)
+        sc.save(a, 2, "dora", "", expect=None, label="same-again-empty-comment")
+        sc.save(a, 2.5, "dora", "back", expect=None,
+                label="same-again-comment-back")
         sc.save(a2, 1, "mallory", "other fit", expect="ValueError",
                 label="different-fit")
         # different fits of the stored curve whose fit columns share no
